@@ -324,6 +324,19 @@ func mkBin(op Op, x, y *Term) *Term {
 		if y.isConst() && y.k == mask(x.w) {
 			return x
 		}
+	case OpUDiv:
+		// division by a power of two is a shift (much easier to bit-blast)
+		if y.isConst() && y.k != 0 && y.k&(y.k-1) == 0 {
+			n := 0
+			for (uint64(1) << uint(n)) != y.k {
+				n++
+			}
+			return mkBin(OpLShr, x, mkConst(x.w, uint64(n)))
+		}
+	case OpURem:
+		if y.isConst() && y.k != 0 && y.k&(y.k-1) == 0 {
+			return mkBin(OpAnd, x, mkConst(x.w, y.k-1))
+		}
 	case OpMul:
 		if x.isConst() && x.k == 1 {
 			return y
